@@ -159,3 +159,22 @@ impl Reset for BadDiv {
         self.total = 0.0;
     }
 }
+
+impl BadDiv {
+    /// C12 controls: a `while` loop (not iterator-driven) and unguarded index arithmetic
+    pub fn spin(&mut self, xs: &[f64]) -> f64 {
+        let mut i = 0;
+        let mut acc = 0.0;
+        while acc < 10.0 {
+            acc += xs[i + self.period];
+            i += 1;
+        }
+        acc
+    }
+}
+
+impl BadDiv {
+    pub fn at(&self, xs: &[f64]) -> f64 {
+        xs[self.period + 1]
+    }
+}
